@@ -177,6 +177,24 @@ Section Abstraction.
     Some (mkIR (match mn with Some _ => true | None => false end) (match mx with Some _ => true | None => false end)
                (ob "exclusiveMinimum") (ob "exclusiveMaximum") (over mn || over mx || crossed)).
 
+  (* the values a `rules.in` / `rules.notIn` lists, against the options of the enum when it is a top-level enum of
+     this file (otherwise taken as existing) *)
+  Definition array_vals (q : path) : list (list N) :=
+    map (fun e => snd (snd e)) (filter (fun e => path_eqb (fst e) q) vals).
+  Definition local_enum_options (name : list N) : option (list (list N)) :=
+    match find (fun k => loc_has t ["elements"; k; "enum"] && list_N_eqb (str_at vals ["elements"; k; "enum"; "name"]) name)
+               (child_names t ["elements"]) with
+    | Some k => Some (map (fun o => str_at vals ["elements"; k; "enum"; "options"; o; "name"]) (child_names t ["elements"; k; "enum"; "options"]))
+    | None => None
+    end.
+  Definition enum_values_ok (a : path) : bool :=
+    match str_at vals (a ++ ["ref"; "package"]), local_enum_options (str_at vals (a ++ ["ref"; "schema"])) with
+    | [], Some opts =>
+        forallb (fun v => existsb (fun o => list_N_eqb o v || is_suffix_N o v) opts)
+                (array_vals (a ++ ["rules"; "in"]) ++ array_vals (a ++ ["rules"; "notIn"]))
+    | _, _ => true
+    end.
+
   (* the abstract field of a j5.schema.v1.Field message at location path [q]; items of arrays / maps are
      fields again: [TOther] as the converter's default arm *)
   Definition abs_fty (q : path) : fty :=
@@ -187,7 +205,7 @@ Section Abstraction.
         let has n := loc_has t (a ++ [n]) in
         if String.eqb arm "object" then TObject (ref_of a "object" RInlineObject) (bool_at vals (a ++ ["flatten"])) (has "rules")
         else if String.eqb arm "oneof" then TOneof (ref_of a "oneof" RInlineOneof) (has "rules") (has "listRules")
-        else if String.eqb arm "enum" then TEnum (ref_of a "enum" RInlineEnum) (if has "rules" then Some true else None) (has "listRules")
+        else if String.eqb arm "enum" then TEnum (ref_of a "enum" RInlineEnum) (if has "rules" then Some (enum_values_ok a) else None) (has "listRules")
         else if String.eqb arm "bool" then TBool (has "rules") (has "listRules")
         else if String.eqb arm "bytes" then TBytes (has "rules")
         else if String.eqb arm "date" then TDate (has "rules") (has "listRules")
@@ -303,11 +321,13 @@ End Abstraction.
 (* ------------------------------------------------------------------ the walk step of the front end *)
 Definition E_UNMODELLED : string := "walker: outside the model".
 
-Definition j5s_walk (resolve : list N -> list N -> ref_out) (body : list stmt) : outcome walk_out :=
+(* [mk_resolve]: how a type reference resolves, given the filled file (so that it may look at the file's own
+   declarations) *)
+Definition j5s_walk_gen (mk_resolve : loc -> list (path * sval) -> list N -> list N -> ref_out) (body : list stmt) : outcome walk_out :=
   match walk_schema body with
   | SOk s =>
       match validate s with
-      | VlOk [] => Ok (WalkFile (ws_loc s) (abs_decls resolve (ws_loc s) (ws_vals s)))
+      | VlOk [] => Ok (WalkFile (ws_loc s) (abs_decls (mk_resolve (ws_loc s) (ws_vals s)) (ws_loc s) (ws_vals s)))
       | VlOk vs => Ok (WalkErrs (map (violation_span (ws_loc s)) vs))
       | VlUnmod _ => Err E_UNMODELLED
       end
@@ -315,6 +335,22 @@ Definition j5s_walk (resolve : list N -> list N -> ref_out) (body : list stmt) :
   | SPanic x => Panic x
   | SUnmod _ => Err E_UNMODELLED
   end.
+Definition j5s_walk (resolve : list N -> list N -> ref_out) : list stmt -> outcome walk_out := j5s_walk_gen (fun _ _ => resolve).
+
+(* a file alone in its package: a reference without package part resolves to a top-level object / oneof / enum of
+   the file itself; everything else is not found *)
+Definition resolve_in_file (t : loc) (vals : list (path * sval)) (pkg schema : list N) : ref_out :=
+  match pkg with
+  | _ :: _ => RNotFound
+  | [] =>
+      match find (fun k => existsb (fun kd => loc_has t ["elements"; k; fst kd] && list_N_eqb (str_at vals (["elements"; k; fst kd] ++ snd kd)) schema)
+                                   [("object", ["def"; "name"]); ("oneof", ["def"; "name"]); ("enum", ["name"])])
+                 (child_names t ["elements"]) with
+      | Some k => if loc_has t ["elements"; k; "enum"] then RFound CmpbFields.KEnum FSame else RFound CmpbFields.KMsg FSame
+      | None => RNotFound
+      end
+  end.
+Definition j5s_walk_alone : list stmt -> outcome walk_out := j5s_walk_gen resolve_in_file.
 
 (* every reference resolves nowhere: the file alone, nothing else in its package *)
 Definition resolve_none (_ _ : list N) : ref_out := RNotFound.
